@@ -60,6 +60,12 @@ FINDINGS = {
                 "blank before the `#` inside the COMMENT token; a comment on its own line inside brackets is re-emitted with the source's "
                 "leading blanks up to the token start and the token stripped, so it moves one column to the left on every pass: "
                 "format_source is not idempotent", "![ls]\nx = [\n      # c\n    1]\n"),
+    "C17-F17": ("once a line starts with `![` `$[` `$(` `!(` xonsh's tokenizer stays in subprocess mode for the rest of the file and no "
+                "longer reports a `#` glued to a word as a comment start (ERRORTOKEN `#`), so a backslash that ends that physical line "
+                "is a line continuation to the formatter, while the parser ends the statement there (tools._ends_with_line_continuation: "
+                "the backslash is comment text; the command gets a literal backslash argument). The formatter indents the next "
+                "statement like a continuation line: `![ls]<newline>echo x# a \\<newline>'b'` -> `...<newline>    'b'`, an unexpected "
+                "indent (inside a block the statement moves to another block or the output is rejected)", "![ls]\necho x# a \\\n'b'\n"),
 }
 
 
@@ -98,12 +104,33 @@ def _line_of(d, tok):
     return [t for t in d["toks"] if t.sline == tok.sline]
 
 
+def hash_before_continuation(d):
+    """The edit is in the leading blanks of a physical line that follows a backslash-newline, and the physical
+    line that ends in that backslash holds a `#` which the tokenizer (sticky subprocess mode) did not report as a
+    comment start: to the parser the backslash is comment text and the next physical line starts a statement."""
+    xtok = A._mods()
+    prev = d["prev"]
+    if prev is None or prev.type != xtok.ERRORTOKEN or not prev.string.endswith("\n"):
+        return False
+    return any(t.type == xtok.ERRORTOKEN and t.string == "#" and t.line == prev.line and t.a < prev.a for t in d["toks"])
+
+
+def glued_continuation(d):
+    """the backslash-newline before this edit is glued to the token before it (it continues a *word*)"""
+    prev = d["prev"]
+    if prev is None or prev.i == 0:
+        return False
+    return d["toks"][prev.i - 1].b == prev.a
+
+
 def edit_finding(d):
     """id of the recorded finding whose predicate this single formatter edit satisfies, or None."""
     rule, shape, ctx = d["rule"], d["shape"], d["ctx"]
     prev, nxt = d["prev"], d["next"]
     if ctx == "macro-block":
         return "C17-F04"
+    if rule == "continuation-indent" and ctx in ("subproc", "python") and hash_before_continuation(d):
+        return "C17-F17"
     if ctx == "macro-alias":
         t = nxt if (nxt is not None and nxt.macro == "alias") else (d["inside"] if d["inside"] is not None else prev)
         if t is not None and t.macro == "alias" and not t.macro_head_first:
@@ -156,7 +183,7 @@ def edit_finding(d):
         if rule == "before-continuation" and shape == "insert" and prev is not None and prev.type == A._mods().NAME \
                 and prev.string in A.KEYWORDS:
             return "C17-F08"        # the forced blank lands between the keyword and a backslash-newline glued to it
-        if rule == "continuation-indent" and shape == "insert":
+        if rule == "continuation-indent" and shape == "insert" and glued_continuation(d):
             return "C17-F13"
         if rule == "continuation-indent" and shape == "remove" and nxt is not None and not formatter_sees_subproc(_line_of(d, nxt)):
             return "C17-F14"
@@ -199,6 +226,19 @@ def _selfdoc_gap(d):
     return p.type == xtok.OP and p.string == "=" and len(p.brk) == want + 1
 
 
+def unit_finding(dets):
+    """id of the recorded finding that the edits of one revertible unit (or of one failure) share, or None.
+    The indentation unit - the `indent` edits plus the F17-shaped edits, which are the indentation of a statement
+    to the parser - belongs to F17 when it holds an F17-shaped edit and otherwise nothing but plain `indent` edits:
+    where tokenizer and parser disagree about which physical lines start a statement, no indentation can be right."""
+    fids = [edit_finding(d) for d in dets]
+    if len(set(fids)) == 1:
+        return fids[0]
+    if "C17-F17" in fids and all(f == "C17-F17" or (f is None and d["rule"] == "indent") for f, d in zip(fids, dets)):
+        return "C17-F17"
+    return None
+
+
 def classify(kind, sig, det, open_ids):
     """id of the open finding that explains this isolated failure (every necessary edit satisfies
     the same finding's predicate), or None."""
@@ -213,12 +253,8 @@ def classify(kind, sig, det, open_ids):
             if {edit_finding(d) for d in det} == {fid} and fid in open_ids:
                 return fid
         return None
-    ids = {edit_finding(d) for d in det}
-    if len(ids) == 1:
-        fid = ids.pop()
-        if fid in open_ids:
-            return fid
-    return None
+    fid = unit_finding(det)
+    return fid if fid in open_ids else None
 
 
 SAME_LINE_RULES = {"default-gap", "comment-pad", "before-comma", "after-comma", "before-semicolon", "after-semicolon", "before-colon",
@@ -256,8 +292,12 @@ def leak(rnd, fid, open_ids, one_in=10):
 
 
 def avoid_switches(rnd, open_ids, one_in=12):
-    """The set of recorded shapes a generated case stays away from: all open ones, except that one case
-    in `one_in` may contain anything (keeps the attribution path exercised)."""
-    if rnd.randrange(one_in) == 0:
-        return set()
-    return {fid for fid in FINDINGS if fid in open_ids}
+    """The set of recorded shapes a generated case stays away from: all open ones, except that one case in
+    `one_in` lets ONE of them through (keeps the attribution path of every finding exercised).  Several
+    recorded shapes in one text interact (a `#` word before a continuation, an f-string after a continued
+    word, an `=` word in a raw macro body ...): such mixtures fail in ways that are no new information and
+    that no narrow predicate describes, so they are not generated."""
+    ids = sorted(fid for fid in FINDINGS if fid in open_ids)
+    if ids and rnd.randrange(one_in) == 0:
+        return set(ids) - {ids[rnd.randrange(len(ids))]}
+    return set(ids)
